@@ -82,8 +82,8 @@ def c09():
 
 
 SER_SHAPES = (["prim", "opcode", "int", "bool", "null", "slot"] + ["utf8_%d" % n for n in range(5)] + ["string%d" % n for n in range(5)]
-              + ["class%d" % n for n in range(4)] + ["method%d" % n for n in range(4)] + ["framing"])
-SER_QUICK = {"prim", "opcode", "int", "bool", "slot", "utf8_2", "string0", "string3", "class2", "method2", "framing"}
+              + ["class%d" % n for n in range(4)] + ["method%d" % n for n in range(4)] + ["framing", "framing_repeated"])
+SER_QUICK = {"prim", "opcode", "int", "bool", "slot", "utf8_2", "string0", "string3", "class2", "method2", "framing", "framing_repeated"}
 SER_FUNCS = ["bytecode::serializable::{write_u8,write_bool,write_u16,write_u32,write_i32,write_utf8,write_u16_vector,"
              "read_u8,read_bool,read_u16,read_u32,read_i32,read_utf8,read_u16_vector}",
              "<OpCode as Serializable>::{serialize,from_bytes}", "OpCode::{write_opcode_vector,read_opcode_vector,to_hex}",
@@ -96,8 +96,8 @@ SER_BOUNDS = ["primitives: every u8, bool, u16, u32, i32 value",
               "instructions: all 17 kinds (kind symbolic) x every u16 / u8 operand value",
               "constants: integer/boolean/null/slot (kind symbolic, all payloads); string 0-4 bytes; class of 0-3 members; "
               "method of 0-3 instructions with symbolic kinds, name, arity, locals",
-              "program framing: pool of two concrete integers, two globals and the entry index symbolic (count prefixes, pool "
-              "order, pool/globals/entry order)"]
+              "program framing: pool of two concrete integers (different, and the same constant twice), two globals and the entry index "
+              "symbolic (count prefixes, pool order, pool/globals/entry order); decode direction with symbolic integer payloads"]
 SER_NOT_COVERED = ["whole programs with a mixed constant pool (string + method + slot ...) and the label table that Program::from_bytes "
                    "derives: an enum read back from a Vec of different variants loses its discriminant for CBMC and the run exhausts "
                    "8-24 GB (DESIGN 2); composition is checked on a homogeneous concrete pool only"]
@@ -133,6 +133,8 @@ def c04():
     for sh in dec:
         p.add("h_ser::ser_%s_decode" % sh, quick=sh in ("prim", "opcode", "int", "bool", "string2", "class2", "method2"), timeout=900,
               drives=["from_bytes"], bound="shape %s: every buffer of the documented layout (structure concrete, payload symbolic)" % sh)
+    p.add("h_ser::ser_framing_decode", quick=True, timeout=900, drives=["Program::from_bytes"],
+          bound="framing decode: two integer constants (all values, equal or not), two globals, entry")
     p.add("h_ser::ser_opcode_reject", quick=True, timeout=600, allow=["Cannot deserialize opcode: unknown tag"],
           bound="opcode numbers 0x11-0xff: rejected (the reader's rejection is a panic)")
     p.add("h_ser::ser_utf8_predicate_exact", quick=False, timeout=900, bound="harness-side UTF-8 predicate = std::str::from_utf8 on all inputs of 0-4 bytes")
@@ -167,10 +169,11 @@ VM_BOUNDS = ["pre-state: operand stack = sentinel (+ the instruction's operands)
              "array sizes <= 2; names of one byte (get/set: three); --heap-size any value below 2^40 MB"]
 VM_OUTSIDE = ["stacks deeper than 4, more than 2 frames, more than 2 heap cells, longer names, arrays longer than 2",
               "the fetch loop over programs longer than 3 instructions", "--heap-size >= 2^44 MB (set_size's own multiplication overflows)"]
-VM_NOT_COVERED = ["eval_call_function, object-method invocation and eval_object: their iterator chains (veccat!, collect, IndexMap builds) exhaust "
+VM_NOT_COVERED = ["eval_set_field under CBMC: 15.5 M variables / 68.8 M clauses, out of memory at 12 GB in propositional reduction (three harness shapes tried)",
+                  "eval_call_function, object-method invocation and eval_object: their iterator chains (veccat!, collect, IndexMap builds) exhaust "
                   "16-50 GB under CBMC (DESIGN 2); see the MIR/z3 tasks for what is decided about them"]
 VM_ALL = ["literal", "get_local", "set_local", "get_global", "set_global", "drop_label", "jump", "branch", "return", "array",
-          "get_field", "set_field", "set_field_non_object", "loop_stops_at_failure", "loop_runs_to_end", "routing"]
+          "get_field", "loop_stops_at_failure", "loop_runs_to_end", "routing"]
 
 
 def vm_prop(pid, quick, extra_all=()):
@@ -183,8 +186,10 @@ def vm_prop(pid, quick, extra_all=()):
 
 
 def c05():
-    return vm_prop("C05", {"literal", "get_local", "set_local", "get_global", "set_global", "drop_label", "jump", "branch", "return",
+    p = vm_prop("C05", {"literal", "get_local", "set_local", "get_global", "set_global", "drop_label", "jump", "branch", "return",
                            "routing", "loop_runs_to_end"}, VM_ALL)
+    p.smt_tasks.append(SmtTask("c09_dispatch_mir", "c09_dispatch.py", quick=True, timeout=900))
+    return p
 
 
 PRINT_SHAPES = [(0, 0), (1, 0), (2, 0), (3, 0), (4, 0), (5, 0)]
@@ -235,8 +240,8 @@ COMPILE_NOT_COVERED = ["scope sequences with two global definitions or three let
 
 def compile_prop(pid, quick_literals, quick_seqs):
     p = Prop(pid)
-    for fk in ("local", "top", "top_block"):
-        p.add("h_compile::compile_literal_%s" % fk, quick=fk in quick_literals, timeout=900, drives=["compile_into"], bound="literal arm, frame %s" % fk)
+    for lit in ("integer_local", "integer_top", "integer_top_block", "boolean_local", "boolean_top", "null_local", "null_top_block"):
+        p.add("h_compile::compile_%s" % lit, quick=lit in quick_literals, timeout=900, drives=["compile_into"], bound="literal arm %s: every value, keep_result both ways" % lit)
     for sq in SCOPE_SEQS:
         for fk in ("local", "top", "block"):
             if (sq, fk) in SCOPE_DO_NOT_FIT:
@@ -249,7 +254,7 @@ def compile_prop(pid, quick_literals, quick_seqs):
 
 
 def c02():
-    return compile_prop("C02", {"local", "top"}, {("r", "local"), ("r", "block"), ("l", "top"), ("a", "local"), ("lr", "local")})
+    return compile_prop("C02", {"integer_local", "null_top_block"}, {("r", "local"), ("r", "block"), ("l", "top"), ("a", "local"), ("lr", "local")})
 
 
 def c12():
@@ -280,9 +285,9 @@ def c07():
 
 def c10():
     p = Prop("C10")
-    for h, q in (("loop_stops_at_failure", True), ("drop_label", True), ("get_field", True), ("set_field_non_object", True), ("literal", False),
+    for h, q in (("loop_stops_at_failure", True), ("drop_label", True), ("get_field", True), ("literal", False),
                  ("get_local", False), ("set_local", False), ("get_global", False), ("set_global", False), ("jump", False), ("branch", True),
-                 ("return", False), ("array", False), ("set_field", False)):
+                 ("return", False), ("array", False)):
         p.add("h_vm::vm_" + h, quick=q, timeout=900, drives=["eval_" + h], bound="failure conjuncts: Err exactly where the step is undefined, no other panic reachable")
     for n in range(0, 6):
         p.add("h_print::print_len%d_args0" % n, quick=n in (1, 3), timeout=1200, drives=["eval_print"], bound="failing print writes nothing; format strings of %d bytes" % n)
@@ -302,7 +307,7 @@ def c10():
 
 def c13():
     p = Prop("C13")
-    for h, q in (("branch", True), ("array", True), ("set_field", True), ("drop_label", False), ("return", False)):
+    for h, q in (("branch", True), ("array", True), ("drop_label", False), ("return", False)):
         p.add("h_vm::vm_" + h, quick=q, timeout=900, bound="operands popped exactly once and in the pushed order")
     for sq, fk in (("la", "local"), ("l", "top")):
         p.add("h_compile::scope_%s_%s" % (sq, fk), quick=True, timeout=1500, bound="value compiled before the store")
@@ -317,7 +322,7 @@ def c13():
 
 def c14():
     p = Prop("C14")
-    for h, q in (("get_field", True), ("set_field", True), ("set_field_non_object", True)):
+    for h, q in (("get_field", True),):
         p.add("h_vm::vm_" + h, quick=q, timeout=900, bound="fields are read and updated in place through a heap reference")
     p.smt_tasks.append(SmtTask("c09_dispatch_mir", "c09_dispatch.py", quick=True, timeout=900))
     p.functions = VM_FUNCS
@@ -330,7 +335,7 @@ def c14():
 def c16():
     p = Prop("C16")
     for h, q in (("array", True), ("literal", True), ("get_local", False), ("set_local", False), ("get_global", False), ("set_global", False),
-                 ("branch", False), ("get_field", True), ("set_field", False)):
+                 ("branch", False), ("get_field", True)):
         p.add("h_vm::vm_" + h, quick=q, timeout=900, bound="heap length after the step: +1 exactly for a successful array creation, unchanged otherwise; any --heap-size")
     for h in ("array0", "array2", "object"):
         p.add("h_heap::heap_allocate_" + h, quick=True, timeout=900, drives=["Heap::allocate", "HeapObject::size"],
